@@ -19,6 +19,26 @@ CHECKS = {
                      "token surviving trie/minimisation/printing, which is not decided.",
         technique="static analysis: constant-table interval equality + MIR wiring rules + path-splitting constant propagation",
     ),
+    "C03": dict(
+        category="other",
+        text="Substitution clause decided exactly: the closure's decision table (ccp, 64 setting subsets x 4 feasible memberships) equals the "
+             "documented precedence; captured variables are traced to the settings written by the public setters; the pass runs whenever a class "
+             "option is on. The language clause (tokens survive the automaton pipeline) is not decided.",
+        design_ref="DESIGN.md §4 C03",
+        note=TRUST + "Necessary-and-sufficient for the per-code-point substitution, necessary only for the language statement.",
+        technique="static analysis: path-splitting constant propagation + control dependence + setter effect summaries",
+    ),
+    "C10": dict(
+        category="other",
+        text="Every source of nondeterminism of safe Rust is shown absent or neutralised in the functions reachable from build(): hash-order taint "
+             "(type-recognised unordered iterators and all their consumers), ambient sources (time/env/thread/fs/rand/addresses), statics, unsafe; "
+             "input canonicalisation (sort, dedup, total-order comparator before any consumer); call history (settings by shared reference to a Freeze "
+             "type, write-only setters, who-may-write) ; thorough adds compile-pass/compile_fail witnesses.",
+        design_ref="DESIGN.md §4 C10",
+        note=TRUST + "Determinism of the dependencies (petgraph, ndarray, itertools, regex) is assumed; one audited exception table entry "
+                     "(regrouped sort in create_ranges_of_repetitions) is fingerprinted structurally.",
+        technique="static analysis: order-taint over MIR types, effect summaries via constant propagation, dominators, compile_fail witnesses",
+    ),
 }
 
 NOT_APPLICABLE = {
